@@ -275,11 +275,12 @@ fn do_split_args(case: &Value) -> Value {
         Err(e) => return json!({"outcome": "lex_error", "msg": e.to_string()}),
     };
     let ts2 = ts.clone();
+    let norm = ts.to_string();
     let dm = guarded(panic::AssertUnwindSafe(move || {
         list_json(syn::parse2::<DmList>(ts).map(|l| l.0))
     }));
     let sy = list_json(syn::parse2::<SynList>(ts2).map(|l| l.0));
-    json!({"outcome": "done", "dm": dm, "syn": sy})
+    json!({"outcome": "done", "dm": dm, "syn": sy, "norm": norm})
 }
 
 // ---------------------------------------------------------------------------------------------
